@@ -91,15 +91,25 @@ def run(ctx) -> Report:
         ("{f: h, u: uu, v: u}", {f: h, u: uu, v: u}),
         ("{h: f} (no mapped terminal occurs)", {h: f}),
     ]
+    # images that are constant on each cell but differ across a facet (DG0 coefficient, cell volume), and one that is
+    # globally constant: whatever the pass asks about an image (is_cellwise_constant ...) is answered by its tags
+    k0 = terminal("k0", (), "Coefficient", cellwise_constant=True)
+    vol = terminal("vol", (), "CellVolume", cellwise_constant=True)
+    mappings += [("{f: k0 (DG0)}", {f: k0}), ("{f: k0*vol}", {f: uflmodel.m_product(k0, vol)}), ("{g: k0, f: vol}", {g: k0, f: vol})]
     extra = []
     extra.append(("f('+')*g('-')", corpus.mult(cm["PositiveRestricted"](f), cm["NegativeRestricted"](g))))
     lab = Obj("label", ufl_class="Label", ufl_operands=(), _ufl_is_terminal_=True)
     var = cm["Variable"](corpus.mult(f, g), lab)
     extra.append(("variable(f*g)*f", corpus.mult(var, f)))
+    extra.append(("f('+') - f('-')   (jump)", uflmodel.m_sum(cm["PositiveRestricted"](f), uflmodel.m_product(uflmodel.m_scalar(-1), cm["NegativeRestricted"](f)))))
+    extra.append(("(f*g)('+')*g('-')", corpus.mult(cm["PositiveRestricted"](corpus.mult(f, g)), cm["NegativeRestricted"](g))))
+    extra.append(("(u[i]*v[i])('-') + f('+')", uflmodel.m_sum(cm["NegativeRestricted"](corpus.mult(corpus.idx(u, i), corpus.idx(v, i))), cm["PositiveRestricted"](f))))
     for desc, e in exprs + extra:
         for mdesc, mp in mappings:
             H = PassHarness(ctx, CLS)
             H.ip.overrides["as_ufl"] = lambda x: x
+            H.ip.overrides["is_cellwise_constant"] = lambda o: bool(as_T(o).tags.get("cellwise_constant", False)) if isinstance(o, T) else False
+            H.ip.overrides["is_globally_constant"] = lambda o: False
             H.ip.skip_functions |= {"MultiFunction.__init__"}
             try:
                 H.init(dict(mp))
